@@ -7,7 +7,7 @@
     outcome each real authenticator type produces per credential shape, endpoint
     behaviour and cache lookup; [authenticate] runs a chain of configured steps
     (prototype flag, rule-level flag) on a request. *)
-From HV Require Import Base.Prelude C04.Model C04.Proofs.
+From HV Require Import Base.Prelude C04.Model C04.Proofs C04.Checker.
 
 (* ------------------------------------------------------------------ chain level *)
 
@@ -112,6 +112,33 @@ Theorem C04_named_rejections_block : forall q hits pre a post,
   exists n e, authenticate (pre ++ a :: post) hits q = (n, RError e) /\ n <= S (length pre).
 Proof. exact named_rejections_block. Qed.
 Print Assumptions C04_named_rejections_block.
+
+(* ------------------------------------------------------------------ the predicate the correspondence run applies *)
+
+(** an observation of the implementation that the executable predicate [prop_chain]
+    (C04/Checker.v; it is what `v_prop` of the evaluator computes) accepts is a run the
+    specification allows: consulted = the first of the configured chain in order; the
+    observed outcomes, flags and answer satisfy [spec] whatever the unconsulted
+    authenticators would have done; "no credentials" only where none of the kind were
+    presented; a flag allowing fallback only where the step is opted in *)
+Theorem C04_checked_predicate_implies_spec : forall q ca seen res,
+  prop_chain q 0 ca seen res RNil = true ->
+  map s_pos seen = seq 0 (length seen) /\
+  (forall post, length seen + length post = length ca ->
+     exists r, res_cls_eqb res r = true /\ spec (map obs_authn seen ++ post) (length seen, r)) /\
+  Forall2 (fun a s => (s_out s = Failed ENoCreds -> ~ presents q a) /\ (s_fb s = true -> opts_in a))
+          (firstn (length seen) ca) seen.
+Proof. exact prop_chain_sound. Qed.
+Print Assumptions C04_checked_predicate_implies_spec.
+
+(** conversely the model's own observation — [observe], which is the run of
+    [authenticate] — always passes the predicate, for every chain, request and cache
+    content: an implementation that behaves as the model is never reported *)
+Theorem C04_model_passes_checked_predicate : forall q ca hits,
+  (length (fst (observe q 0 RNil ca hits)), snd (observe q 0 RNil ca hits)) = authenticate ca hits q /\
+  prop_chain q 0 ca (fst (observe q 0 RNil ca hits)) (snd (observe q 0 RNil ca hits)) RNil = true.
+Proof. intros q ca hits. split; [apply observe_is_authenticate | apply model_passes_predicate]. Qed.
+Print Assumptions C04_model_passes_checked_predicate.
 
 (** non-vacuity: wrong basic-auth password, no opt-in, anonymous behind it; the
     same with the opt-in on the rule level *)
